@@ -316,6 +316,40 @@ def generate(unit_dir, canary=False):
             if base_kinds != cur_kinds and not (attrs.get("contract_only") or attrs.get("body") == "opaque"):
                 # the proof script is keyed to the loop structure: a different structure cannot be judged by it
                 raise Undecided("loop-structure-changed", "%s: loops were %s, now %s" % (item_id, base_kinds, cur_kinds))
+            def for_heads(txt):
+                # the iterator expression of every `for` loop: the tokens between `in` and the `{` that opens the body
+                tk = code_tokens(txt)
+                heads = []
+                i = 0
+                while i < len(tk):
+                    if tk[i].kind == "ident" and tk[i].text == "for" and not (i + 1 < len(tk) and tk[i + 1].text == "<"):
+                        j = i + 1
+                        d = 0
+                        while j < len(tk) and not (tk[j].kind == "ident" and tk[j].text == "in" and d == 0):
+                            if tk[j].text in ("(", "["):
+                                d += 1
+                            elif tk[j].text in (")", "]"):
+                                d -= 1
+                            j += 1
+                        e = j + 1
+                        d = 0
+                        while e < len(tk) and not (tk[e].text == "{" and d == 0):
+                            if tk[e].text in ("(", "["):
+                                d += 1
+                            elif tk[e].text in (")", "]"):
+                                d -= 1
+                            e += 1
+                        heads.append(" ".join(t.text for t in tk[j + 1:e]))
+                        i = e
+                    i += 1
+                return heads
+            base_heads = for_heads("\n".join(strip_inline(t) for k_, t in tl if k_ == "b"))
+            cur_heads = for_heads("\n".join(cur_lines))
+            if base_heads != cur_heads and not (attrs.get("contract_only") or attrs.get("body") == "opaque"):
+                # loop invariants speak about `it_k.index@` / `it_k.snapshot@.remaining()` of one specific iterator: over a
+                # different iterator expression a failed invariant is a mismatch of the proof script, not evidence.  As in every
+                # undecided case the replay search still runs, and a concrete witness is still reported as a violation.
+                raise Undecided("loop-head-changed", "%s: `for` iterators were %s, now %s" % (item_id, base_heads, cur_heads))
         placed, changed = place_annotations(tl, cur_lines, item_id)
         has_requires = any(a and re.match(r"\s*requires\b", t) for a, t, _ in placed)
         out_lines.append("//#item-begin %s" % item_id)
